@@ -237,7 +237,7 @@ func (t *tconn) Close() error {
 	}
 	return t.conn.Close()
 }
-func (t *tconn) IsClosed() bool                    { t.conn.mu.Lock(); defer t.conn.mu.Unlock(); return t.conn.closed }
+func (t *tconn) IsClosed() bool { t.conn.mu.Lock(); defer t.conn.mu.Unlock(); return t.conn.closed }
 
 // ---- CloudControlAPI double ----------------------------------------------------------------------
 
